@@ -90,7 +90,8 @@ class MemSession:
         self.deliveries: list[dict] = []          # every successful consume
         self.believes: list[tuple[int, str]] = []  # (consumer, id): handed out and not disposed of by the holder
         self.bel_log: list[tuple[int, list]] = []  # (log index, believes after that op)
-        self.due: dict[str, int | None] = {}      # id -> key of the delayed dict at its last (re)enqueue
+        self.due: dict[str, int | None] = {}      # id -> next execution time T of its last (re)enqueue (from the Parameters)
+        self.due_key: dict[str, int | None] = {}  # id -> key of the broker's delayed dict at its last (re)enqueue
         self.enq_at: dict[str, int] = {}          # id -> log index of its last (re)enqueue
         self.returned_nonnormal: set[str] = set() # ids returned (reject/finish) out of a DELAYED/DEAD hold
         self.stolen: set[str] = set()             # ids returned by ANOTHER consumer's finish()
@@ -127,6 +128,9 @@ class MemSession:
         key = RoutingKey(topic=topic, queue=q, priority=5, id_=id_)
         params = mk_params(pd)
         now = CLOCK.us
+        # the statement's T: the stored next execution time, else the one computed from the schedule — taken from the
+        # Parameters object, independently of where the broker files the message
+        spec_due = params.delay.next_execution_time or params.compute_next_execution_time
         if requeue:
             await self.broker.requeue(key, payload, params)
             self.held.pop(id_, None)
@@ -134,8 +138,9 @@ class MemSession:
             await self.broker.enqueue(key, payload, params)
             self.enq[q].append(id_)
         self.msgs[id_] = (key, payload, params)
-        self.due[id_] = next((to_us(t) for t, ms in self.broker.queues[q].delayed.items()
-                              if any(m.key.id_ == id_ for m in ms)), None)
+        self.due_key[id_] = next((to_us(t) for t, ms in self.broker.queues[q].delayed.items()
+                                  if any(m.key.id_ == id_ for m in ms)), None)
+        self.due[id_] = None if spec_due is None else to_us(spec_due)
         self.enq_at[id_] = len(self.log)
         if requeue:
             self.believes = [b for b in self.believes if b[1] != id_]
